@@ -22,8 +22,10 @@ func c02Num(label string, n int, dst *[]byte) (v uint64, lead0 bool) {
 }
 
 // VerifH_C02_target: target strings built from templates with solver-chosen digits:
-//   FORM 0: a.b.c.d        FORM 1: a.b.c.d/p      (IPv4; octets and prefix of 1..3 digits)
-//   FORM 2: ::ffff:a.b.c.d FORM 3: ::ffff:a.b.c.d/p  FORM 4: hhhh::h/p  FORM 5: ::h  (IPv6 forms)
+//
+//	FORM 0: a.b.c.d        FORM 1: a.b.c.d/p      (IPv4; octets and prefix of 1..3 digits)
+//	FORM 2: ::ffff:a.b.c.d FORM 3: ::ffff:a.b.c.d/p  FORM 4: hhhh::h/p  FORM 5: ::h  (IPv6 forms)
+//
 // An accepted target must denote exactly the IPv4 set written; every IPv6 form is refused
 // (an IPv4-mapped host may also be taken as the embedded IPv4 address); nothing crashes,
 // and the addresses the generator then emits lie inside the denoted set.
